@@ -349,6 +349,7 @@ def one_case(run, rng, case_id, allow_hypothesis=True):
 
 def run(run, ctx):
     n = N[ctx.tier]
+    G.warm_up()
     for i in ctx.cases(n):
         rng = ctx.rng(PID, i)
         try:
@@ -394,6 +395,7 @@ def replay(path):
     with open(path) as f:
         v = json.load(f)
     w = v["witness"]
+    G.warm_up()
     spec, hist = w["spec"], w["history"]
     probes = G.probes(spec, _probe_rng(spec))
     built = G.build(spec)
